@@ -3,11 +3,13 @@ package structural
 import (
 	"encoding/json"
 	"fmt"
+	"math"
 	"math/rand"
 	"strings"
 
 	"gonum.org/v1/gonum/graph"
 	"gonum.org/v1/gonum/graph/graphs/gen"
+	"gonum.org/v1/gonum/graph/multi"
 	"gonum.org/v1/gonum/graph/product"
 	"gonum.org/v1/gonum/graph/simple"
 
@@ -64,6 +66,13 @@ type specCase struct {
 	Ctr   int64      `json:"ctr"`
 	Panic bool       `json:"panic"`
 	Edges [][2]int64 `json:"edges"`
+	// gen: what the destination holds before the call ("none": empty), and the number of model ids in use
+	Pre struct {
+		Kind  string     `json:"kind"`
+		Nodes []int64    `json:"nodes"`
+		Edges [][2]int64 `json:"edges"`
+	} `json:"pre"`
+	NModel int `json:"nmodel"`
 }
 
 type failer struct {
@@ -444,89 +453,163 @@ type genDst interface {
 	Edges() graph.Edges
 }
 
+// multiDirDst / multiUndDst let a multigraph stand as the destination of a generator: an edge is a new line.
+// (No container of graph/multi is a graph.Builder itself; only the set of joined pairs is compared, the number
+// of parallel lines a generator leaves is counted, not judged.)
+type multiDirDst struct{ *multi.DirectedGraph }
+
+func (g multiDirDst) NewEdge(from, to graph.Node) graph.Edge { return lineEdge{g.NewLine(from, to)} }
+func (g multiDirDst) SetEdge(e graph.Edge)                   { g.SetLine(asLine(g.DirectedGraph, e)) }
+
+type multiUndDst struct{ *multi.UndirectedGraph }
+
+func (g multiUndDst) NewEdge(from, to graph.Node) graph.Edge { return lineEdge{g.NewLine(from, to)} }
+func (g multiUndDst) SetEdge(e graph.Edge)                   { g.SetLine(asLine(g.UndirectedGraph, e)) }
+
+// lineEdge presents a line as an edge.
+type lineEdge struct{ graph.Line }
+
+func (e lineEdge) ReversedEdge() graph.Edge { return lineEdge{e.ReversedLine()} }
+
+func asLine(g interface {
+	NewLine(from, to graph.Node) graph.Line
+}, e graph.Edge) graph.Line {
+	if l, ok := e.(lineEdge); ok {
+		return l.Line
+	}
+	return g.NewLine(e.From(), e.To())
+}
+
+var genDsts = []struct {
+	name     string
+	directed bool
+	mk       func() genDst
+}{
+	{"simple.DirectedGraph", true, func() genDst { return simple.NewDirectedGraph() }},
+	{"simple.UndirectedGraph", false, func() genDst { return simple.NewUndirectedGraph() }},
+	{"multi.DirectedGraph", true, func() genDst { return multiDirDst{multi.NewDirectedGraph()} }},
+	{"multi.UndirectedGraph", false, func() genDst { return multiUndDst{multi.NewUndirectedGraph()} }},
+}
+
 func replayGen(c *specCase, f *failer, maps int, seed int64, sum *core.Summary) {
+	size := int(c.Ctr) + 1
+	if c.NModel > size {
+		size = c.NModel
+	}
 	for mi := 0; mi < maps; mi++ {
-		im := mkMap(int(c.Ctr)+1, mi, seed)
+		im := mkMap(size, mi, seed)
 		idl := make(gen.IDSet, len(c.IDs))
 		for i, m := range c.IDs {
 			idl[i] = im.real(m)
 		}
+		// the id listings: the explicit set, and gen.IDRange when the real ids are consecutive and ascending
+		iders := []struct {
+			name string
+			ids  gen.IDer
+		}{{"IDSet", idl}}
+		consecutive := len(idl) > 0
+		for i := 1; i < len(idl); i++ {
+			if idl[i-1] == math.MaxInt64 || idl[i] != idl[i-1]+1 {
+				consecutive = false
+			}
+		}
+		if consecutive {
+			iders = append(iders, struct {
+				name string
+				ids  gen.IDer
+			}{"IDRange", gen.IDRange{First: idl[0], Last: idl[len(idl)-1]}})
+		}
 		ctr := im.real(c.Ctr)
-		for _, directed := range []bool{true, false} {
+		for _, dk := range genDsts {
+			directed := dk.directed
 			if c.Kind == "Complete" && directed {
 				continue // direction of Complete's edges is not documented
 			}
-			var dst genDst
-			if directed {
-				dst = simple.NewDirectedGraph()
-			} else {
-				dst = simple.NewUndirectedGraph()
-			}
-			f.where = fmt.Sprintf("directed=%v ids=%s", directed, im.name)
-			oc := core.CallTimeout(watchdog, func() {
-				switch c.Kind {
-				case "Complete":
-					gen.Complete(dst, idl)
-				case "Path":
-					gen.Path(dst, idl)
-				case "Cycle":
-					gen.Cycle(dst, idl)
-				case "Star":
-					gen.Star(dst, ctr, idl)
-				case "Wheel":
-					gen.Wheel(dst, ctr, idl)
-				case "Tree":
-					gen.Tree(dst, c.Fan, idl)
+			for _, ider := range iders {
+				dst := dk.mk()
+				// what the destination holds before the call
+				for _, m := range c.Pre.Nodes {
+					if n, isNew := dst.NodeWithID(im.real(m)); isNew {
+						dst.AddNode(n)
+					}
 				}
-			})
-			sum.Cases++
-			if len(c.Edges) > 0 || c.Panic {
-				sum.Nontrivial++
-			}
-			if oc.Hung || oc.Runtime {
-				f.fail("gen."+c.Kind, "runtime-panic", "%s", oc.Text)
-				continue
-			}
-			if oc.Panicked != c.Panic {
-				f.fail("gen."+c.Kind, "panic-contract", "panicked=%v (%s), documented contract says %v", oc.Panicked, oc.Text, c.Panic)
-				continue
-			}
-			if c.Panic {
-				continue
-			}
-			var nodes []int64
-			it := dst.Nodes()
-			for it.Next() {
-				nodes = append(nodes, im.model(it.Node().ID()))
-			}
-			var raw []json.RawMessage
-			json.Unmarshal(c.Nodes, &raw)
-			var wantN []int64
-			json.Unmarshal(c.Nodes, &wantN)
-			if setKey(nodes) != setKey(wantN) {
-				f.fail("gen."+c.Kind, "nodes", "nodes %v, spec %v", nodes, wantN)
-			}
-			norm := func(p [2]int64) [2]int64 {
-				if !directed && p[0] > p[1] {
-					return [2]int64{p[1], p[0]}
+				for _, e := range c.Pre.Edges {
+					u, _ := dst.NodeWithID(im.real(e[0]))
+					v, _ := dst.NodeWithID(im.real(e[1]))
+					dst.SetEdge(dst.NewEdge(u, v))
 				}
-				return p
-			}
-			var got, want [][2]int64
-			es := dst.Edges()
-			for es.Next() {
-				got = append(got, norm([2]int64{im.model(es.Edge().From().ID()), im.model(es.Edge().To().ID())}))
-			}
-			seen := map[[2]int64]bool{}
-			for _, e := range c.Edges {
-				e = norm(e)
-				if !seen[e] {
-					seen[e] = true
-					want = append(want, e)
+				ids := ider.ids
+				f.where = fmt.Sprintf("dst=%s pre=%s ids=%s(%s)", dk.name, c.Pre.Kind, im.name, ider.name)
+				oc := core.CallTimeout(watchdog, func() {
+					switch c.Kind {
+					case "Complete":
+						gen.Complete(dst, ids)
+					case "Path":
+						gen.Path(dst, ids)
+					case "Cycle":
+						gen.Cycle(dst, ids)
+					case "Star":
+						gen.Star(dst, ctr, ids)
+					case "Wheel":
+						gen.Wheel(dst, ctr, ids)
+					case "Tree":
+						gen.Tree(dst, c.Fan, ids)
+					}
+				})
+				sum.Cases++
+				sum.Count("gen_calls_"+dk.name+"_"+ider.name, 1)
+				if len(c.Edges) > 0 || c.Panic {
+					sum.Nontrivial++
 				}
-			}
-			if pairKey(got) != pairKey(want) {
-				f.fail("gen."+c.Kind, "edges", "edges %v, definition gives %v", got, want)
+				if oc.Hung || oc.Runtime {
+					f.fail("gen."+c.Kind, "runtime-panic", "%s", oc.Text)
+					continue
+				}
+				if oc.Panicked != c.Panic {
+					f.fail("gen."+c.Kind, "panic-contract", "panicked=%v (%s), documented contract says %v", oc.Panicked, oc.Text, c.Panic)
+					continue
+				}
+				if c.Panic {
+					continue
+				}
+				var nodes []int64
+				it := dst.Nodes()
+				for it.Next() {
+					nodes = append(nodes, im.model(it.Node().ID()))
+				}
+				var wantN []int64
+				json.Unmarshal(c.Nodes, &wantN)
+				if setKey(nodes) != setKey(wantN) {
+					f.fail("gen."+c.Kind, "nodes", "nodes %v, spec %v", nodes, wantN)
+				}
+				norm := func(p [2]int64) [2]int64 {
+					if !directed && p[0] > p[1] {
+						return [2]int64{p[1], p[0]}
+					}
+					return p
+				}
+				var got, want [][2]int64
+				es := dst.Edges()
+				for es.Next() {
+					e := es.Edge()
+					got = append(got, norm([2]int64{im.model(e.From().ID()), im.model(e.To().ID())}))
+					if ls, ok := e.(graph.Lines); ok {
+						if k := ls.Len(); k > 1 {
+							sum.Count("gen_parallel_lines_left_in_multigraph", k-1)
+						}
+					}
+				}
+				seen := map[[2]int64]bool{}
+				for _, e := range c.Edges {
+					e = norm(e)
+					if !seen[e] {
+						seen[e] = true
+						want = append(want, e)
+					}
+				}
+				if pairKey(got) != pairKey(want) {
+					f.fail("gen."+c.Kind, "edges", "edges %v, definition gives %v", got, want)
+				}
 			}
 		}
 	}
